@@ -4,7 +4,7 @@
 # (b) the demo fails with the change, (c) the demo passes without it. Then stores patch+demo under /verif/seeded/<name>/,
 # applies the patch to /repo, runs the property's quick check, and reverts /repo.
 set -u
-PROP=$1; WT=$2; NAME=$3
+PROP=$1; WT=$2; NAME=$3; DEMOFLAGS=${4:-}   # 4th argument: e.g. --release for a demo that only fails in release
 export CARGO_NET_OFFLINE=true
 cd "$WT" || exit 2
 DEMO=$(git status --porcelain | grep '^??' | awk '{print $2}' | grep -v '^target' | head -5)
@@ -17,9 +17,9 @@ echo "== demo: $demo_file (crate $crate)"
 mv "$demo_file" /tmp/$NAME.demo.rs
 if cargo test --workspace --no-fail-fast --offline >/tmp/$NAME.tests.log 2>&1; then T_WITH=pass; else T_WITH=FAIL; fi
 cp /tmp/$NAME.demo.rs "$demo_file"
-if cargo test -p "$crate" --test "$(basename "$demo_file" .rs)" --offline >/tmp/$NAME.demo_with.log 2>&1; then D_WITH=pass; else D_WITH=fail; fi
+if cargo test -p "$crate" --test "$(basename "$demo_file" .rs)" --offline $DEMOFLAGS >/tmp/$NAME.demo_with.log 2>&1; then D_WITH=pass; else D_WITH=fail; fi
 git apply -R /tmp/$NAME.patch
-if cargo test -p "$crate" --test "$(basename "$demo_file" .rs)" --offline >/tmp/$NAME.demo_without.log 2>&1; then D_WITHOUT=pass; else D_WITHOUT=fail; fi
+if cargo test -p "$crate" --test "$(basename "$demo_file" .rs)" --offline $DEMOFLAGS >/tmp/$NAME.demo_without.log 2>&1; then D_WITHOUT=pass; else D_WITHOUT=fail; fi
 git apply /tmp/$NAME.patch
 echo "existing tests with change: $T_WITH ; demo with change: $D_WITH ; demo without change: $D_WITHOUT"
 if [ "$T_WITH" != pass ] || [ "$D_WITH" != fail ] || [ "$D_WITHOUT" != pass ]; then echo "NOT CONFIRMED"; exit 3; fi
